@@ -938,7 +938,9 @@ class C14(Check):
             v6["nh"] = 58
             w = rng.choice(["echo", "echo", "unk", "ns", "na", "rs", "ra", "toobig", "timeex", "unreach"])
             ic = lambda t: {"k": "icmpv6", "type": t, "code": self.val(rng, 8) if w in ("echo", "unk") else 0}
-            opts = lambda: [rng.choice([{"t": 1, "addr": self.rbytes(rng, 6).hex()}, {"t": 2, "addr": self.rbytes(rng, 6).hex()}, {"t": 5, "mtu": self.val(rng, 32)}])
+            opts = lambda: [rng.choice([{"t": 1, "addr": self.rbytes(rng, 6).hex()}, {"t": 2, "addr": self.rbytes(rng, 6).hex()}, {"t": 5, "mtu": self.val(rng, 32)},
+                                        {"t": 3, "plen": self.val(rng, 8), "onlink": rng.random() < .5, "auto": rng.random() < .5, "valid": self.val(rng, 32),
+                                         "pref": self.val(rng, 32), "prefix": self.rbytes(rng, 16).hex()}])
                             for _ in range(rng.choice([0, 1, 2]))]
             if w == "echo": return self._stack([E("ipv6"), v6, ic(rng.choice([128, 129])), {"k": "echo6", "id": self.val(rng, 16), "seq": self.val(rng, 16)}, self.bytes_layer(rng, hi=1300)])
             if w == "unk": return self._stack([E("ipv6"), v6, ic(rng.choice([200, 130, 4])), self.bytes_layer(rng, hi=300)])
